@@ -82,7 +82,7 @@ def run(src, tier, seed):
 
     # ---- R3 theory model computed before the search state is cleared
     r = res.rule('theory-model-before-clear', 'MainSolver::solve calls thandler->computeModel() under status == s_True && produce_models() before smt_solver->clearSearch(); '
-                 'get-model is guarded by the same predicate; computeModel / fillTheoryFunctions are forwarded to every scheduled solver', floor=4)
+                 'get-model is guarded by the same predicate and by a record that the model was computed; computeModel / fillTheoryFunctions are forwarded to every scheduled solver', floor=5)
     so = fx.func('opensmt::MainSolver::solve')
     order = [(mname(n), n) for n in fwalk(so) if n.get('k') == 'call' and mname(n) in ('computeModel', 'clearSearch') and not n.get('as')]
     names = [o[0] for o in order]
@@ -102,6 +102,22 @@ def run(src, tier, seed):
         res.ok(r, 'getModel throws unless produce_models() and status == s_True')
     else:
         res.bad(r, 'getmodel-unguarded', fx.loc(gm), 'MainSolver::getModel no longer rejects the request when models are not produced or the state is not sat')
+    # the option can be switched on after the check: the guard of getModel must also know that the theory model was computed by the check that produced the state
+    flags = set()
+    for n in walk(so['body']):
+        if n.get('k') == 'if' and any(is_call(x, 'computeModel') for x in walk(n['then'])):
+            for x in walk(n['then']):
+                a = as_assign(x) if x.get('k') in ('bin', 'call') else None
+                if a and (path_of(a[0]) or '').startswith('this.'):
+                    flags.add(path_of(a[0]))
+    reads = {path_of(x) for n in rej for x in [see_through(n['cond'])] + list(walk(n['cond'])) if isinstance(x, dict) and x.get('k') == 'mem'}
+    reset_first = any(as_assign(x) and path_of(as_assign(x)[0]) in flags and str(see_through(as_assign(x)[1]).get('v')) == 'False' for x in fwalk(so) if x.get('k') in ('bin', 'call'))
+    if flags & reads and reset_first:
+        res.ok(r, 'getModel also rejects unless %s, which solve() sets together with computeModel() and clears before each check' % sorted(flags & reads))
+    else:
+        res.bad(r, 'model-availability-unrecorded', fx.loc(gm), 'MainSolver::getModel is guarded by the option and the status only: the theory solvers compute their model at check-sat and only if '
+                ':produce-models is set at that moment, so (set-option :produce-models true) after a check-sat lets get-model read theory model storage that was never written '
+                '(replays/C18/produce-models-enabled-late.smt2); solve() must record that the model was computed and getModel must test that record')
     for fname, inner in (('opensmt::TSolverHandler::computeModel', 'computeModel'), ('opensmt::TSolverHandler::fillTheoryFunctions', 'fillTheoryFunctions')):
         f = fx.func(fname)
         ok = any(x.get('k') == 'loop' and x.get('kind') == 'range' and 'solverSchedule' in str(x.get('range')) and any(is_call(y, inner) for y in walk(x['body'])) and
